@@ -7,6 +7,7 @@ import (
 	"github.com/pion/rtp/codecs"
 
 	"verifharness/fw"
+	"verifharness/gen"
 	"verifharness/ref"
 )
 
@@ -176,7 +177,18 @@ func c11Short(c *fw.Ctx, i int) {
 		if (mtu >= 1000 && r.Chance(1, 40)) || (mtu >= 64 && r.Chance(1, 300)) || r.Chance(1, 8000) {
 			fl = r.Pick(65535, 65536, 65537, 70000, 131073) // frames beyond 64 KiB are ordinary key frames
 		}
-		if !c11Frame(c, p, pidOn, k, mtu, r.Bytes(fl), k == 0 || k == 127 || k == 128) {
+		frame := r.Bytes(fl)
+		if r.Chance(1, 3) {
+			// frames that look like VP8 (frame tag, key-frame start code, partition size), with the first partition ending anywhere,
+			// also exactly where a packet begins: the descriptor must not depend on what the frame says about itself
+			boundary := -1
+			if r.Bool() {
+				boundary = r.Range(1, 3)*(mtu-desc) + r.Pick(0, 0, 0, -1, 1)
+			}
+			frame = gen.VP8Frame(r, fl, r.Chance(2, 3), boundary)
+			c.Count("frames_shaped_like_vp8_bitstreams", 1)
+		}
+		if !c11Frame(c, p, pidOn, k, mtu, frame, k == 0 || k == 127 || k == 128) {
 			return
 		}
 	}
